@@ -302,6 +302,22 @@ func genFaultCase(r *rand.Rand, cfg Cfg) Case {
 		}
 		k := pick(r, uni)
 		var op string
+		if r.Intn(5) == 0 {
+			// navigation calls on ONE cursor, each with a failing load; a call that fails is retried on
+			// the same cursor (the fault has cleared) and must then give the normal result
+			// (Min / Max / Ceil place a cursor relative to where it stands: only on a fresh cursor)
+			place := pick(r, []string{"cmin 7", "cmax 7", fmt.Sprintf("cceil 7 %d", k)})
+			ops = append(ops, "cur 0 7", pick(r, []string{"faultall load " + place, place}))
+			for j := 0; j < 2+r.Intn(6); j++ {
+				nav := pick(r, []string{"cfwd 7", "cbwd 7"})
+				if r.Intn(3) == 0 {
+					ops = append(ops, fmt.Sprintf("fault load %d %s", r.Intn(4), nav))
+				} else {
+					ops = append(ops, "faultall load "+nav)
+				}
+			}
+			continue
+		}
 		switch r.Intn(12) {
 		case 9:
 			op = "diff 2 0"
